@@ -8,10 +8,11 @@ vocabulary (`dedupLast`, `Reach`, `Missing`, `NoLinkCycle`, `PlacedIn`, `ClosedA
 `StepsOK`, `missedOf`) is defined in `SV.Lemmas.Sort`.
 
 Throughout, `es` is ANY list of tar headers, `prio` ANY prioritized list, `allow` says whether
-WithAllowPrioritizeNotFound was given.  `NoLinkCycle (importTar es)` (no cycle in the
-parent-directory/hardlink graph) is the one hypothesis; without it `moveRec` really does not
-terminate (`cycle_diverges_witness`, reproduced on the implementation: oracle signature
-`moverec-link-cycle`).
+WithAllowPrioritizeNotFound was given.  The theorems about the result hold for EVERY run that
+returns (`sortEntries … = .ok out missed` / `.err`), whatever the tar.  That a run returns at all
+needs `NoLinkCycle (importTar es)` (no cycle in the parent-directory/hardlink graph): without it
+`moveRec` really does not terminate (`cycle_diverges_witness`; on the implementation a fatal stack
+overflow, oracle signature `moverec-link-cycle`).
 -/
 import SV.Lemmas.Sort
 
@@ -47,10 +48,10 @@ theorem import_last_duplicate_wins (es : List Entry) :
 /-- The output is a permutation of (the one landmark) + (the de-duplicated input without
 landmarks), and has no repeated entry: no input entry is lost or duplicated by the reordering. -/
 theorem sort_perm {es : List Entry} {prio : List String} {allow : Bool}
-    (hnc : NoLinkCycle (importTar es)) {out : List Entry} {missed : List String}
+    {out : List Entry} {missed : List String}
     (h : sortEntries es prio allow = .ok out missed) :
     out.Perm (landmarkFor prio :: importTar es) ∧ out.Nodup := by
-  obtain ⟨blocks, hout, _, hsub, hnd, _, _, _⟩ := (sortEntries_structure prio allow hnc).2.2 out missed h
+  obtain ⟨blocks, hout, _, hsub, hnd, _⟩ := (sortEntries_structure prio allow).2 out missed h
   have hinpnd : (importTar es).Nodup := nodup_of_keysNodup (importTar_keysNodup es)
   have hgnd : blocks.flatten.Nodup := nodup_of_keysNodup hnd
   have hperm : (blocks.flatten ++ (importTar es).filter (fun e => decide (e ∉ blocks.flatten))).Perm
@@ -84,12 +85,12 @@ theorem sort_perm {es : List Entry} {prio : List String} {allow : Bool}
 the prefetch landmark when the list is non-empty, the no-prefetch landmark when it is empty
 (landmark entries of the input are gone). -/
 theorem single_landmark {es : List Entry} {prio : List String} {allow : Bool}
-    (hnc : NoLinkCycle (importTar es)) {out : List Entry} {missed : List String}
+    {out : List Entry} {missed : List String}
     (h : sortEntries es prio allow = .ok out missed) :
     out.filter (fun e => isLandmarkKey e.key) = [landmarkFor prio] ∧
     (prio = [] → landmarkFor prio = landmarkEntry noPrefetchLandmark) ∧
     (prio ≠ [] → landmarkFor prio = landmarkEntry prefetchLandmark) := by
-  obtain ⟨blocks, hout, _, hsub, _, _, _, _⟩ := (sortEntries_structure prio allow hnc).2.2 out missed h
+  obtain ⟨blocks, hout, _, hsub, _⟩ := (sortEntries_structure prio allow).2 out missed h
   refine ⟨?_, ?_, ?_⟩
   · rw [hout, List.filter_append, List.filter_cons]
     have h1 : blocks.flatten.filter (fun e => isLandmarkKey e.key) = [] := by
@@ -121,14 +122,14 @@ theorem empty_list_noprefetch (es : List Entry) (allow : Bool) :
 leading group, in their original relative order (a sub-list of the de-duplicated input, hence of
 the input tar), and every input entry that survived de-duplication is in one of the two parts. -/
 theorem rest_keeps_relative_order {es : List Entry} {prio : List String} {allow : Bool}
-    (hnc : NoLinkCycle (importTar es)) {out : List Entry} {missed : List String}
+    {out : List Entry} {missed : List String}
     (h : sortEntries es prio allow = .ok out missed) :
     ∃ group rest, out = group ++ landmarkFor prio :: rest ∧
       rest = (importTar es).filter (fun e => decide (e ∉ group)) ∧
       rest.Sublist (importTar es) ∧ rest.Sublist es ∧
       (∀ e ∈ group, e ∈ importTar es) ∧
       (∀ e ∈ importTar es, e ∈ group ∨ e ∈ rest) := by
-  obtain ⟨blocks, hout, _, hsub, _, _, _, _⟩ := (sortEntries_structure prio allow hnc).2.2 out missed h
+  obtain ⟨blocks, hout, _, hsub, _⟩ := (sortEntries_structure prio allow).2 out missed h
   refine ⟨blocks.flatten, _, hout, rfl, List.filter_sublist, ?_, hsub, ?_⟩
   · exact List.filter_sublist.trans (import_last_duplicate_wins es).2.1
   · intro e he
@@ -143,27 +144,38 @@ list (`StepsOK`): the block of `l` holds nothing but `l` itself and entries `l` 
 ancestors, hardlink targets, theirs, …: `Reach`), only entries not placed before (`sort_perm`:
 no entry occurs twice), and — when nothing `l` needs is missing — `l`'s entry is in the group
 from then on and, unless an earlier path already brought it in, is the LAST entry of its block,
-i.e. preceded by all of its not-yet-placed parent directories and hardlink targets. -/
+i.e. preceded by all of its not-yet-placed parent directories and hardlink targets (the
+alternative `SelfReach` in `BlockOK` is excluded by `block_ends_with_listed_path`). -/
 theorem prioritized_prefix_order {es : List Entry} {prio : List String} {allow : Bool}
-    (hnc : NoLinkCycle (importTar es)) {out : List Entry} {missed : List String}
+    {out : List Entry} {missed : List String}
     (h : sortEntries es prio allow = .ok out missed) :
     ∃ blocks rest, out = blocks.flatten ++ landmarkFor prio :: rest ∧
       StepsOK (importTar es) prio [] blocks := by
-  obtain ⟨blocks, hout, hsteps, _⟩ := (sortEntries_structure prio allow hnc).2.2 out missed h
+  obtain ⟨blocks, hout, hsteps, _⟩ := (sortEntries_structure prio allow).2 out missed h
   exact ⟨blocks, _, hout, hsteps⟩
+
+/-- Without a cycle no name is needed by one of its own prerequisites, so in `BlockOK` the entry
+of a listed path that was not placed before IS the last entry of its block. -/
+theorem block_ends_with_listed_path {inp : List Entry} (hnc : NoLinkCycle inp)
+    {l : String} {before b : List Entry} (hb : BlockOK inp l before b)
+    (hm : ¬ Missing inp (cleanEntryName l)) {e : Entry}
+    (he : get inp (cleanEntryName l) = some e) (hne : e ∉ before) : b.getLast? = some e := by
+  rcases (hb.2 hm).2 e he hne with h | h
+  · exact h
+  · exact absurd h (not_selfReach hnc _)
 
 /-- "In the order given": if `l1` is listed before `l2` and both can be placed, then the entry of
 `l1` comes before the entry of `l2` in the leading group — unless `l2`'s entry is itself needed by
 `l1` or by a path listed before `l1` (then it had to come earlier). -/
 theorem prioritized_order {es : List Entry} {p1 p2 p3 : List String} {l1 l2 : String} {allow : Bool}
-    (hnc : NoLinkCycle (importTar es)) {out : List Entry} {missed : List String}
+    {out : List Entry} {missed : List String}
     (h : sortEntries es (p1 ++ l1 :: p2 ++ l2 :: p3) allow = .ok out missed)
     {e1 e2 : Entry}
     (h1 : get (importTar es) (cleanEntryName l1) = some e1) (hm1 : ¬ Missing (importTar es) (cleanEntryName l1))
     (h2 : get (importTar es) (cleanEntryName l2) = some e2) (hm2 : ¬ Missing (importTar es) (cleanEntryName l2)) :
     (∃ a b c rest, out = a ++ e1 :: b ++ e2 :: c ++ landmarkFor (p1 ++ l1 :: p2 ++ l2 :: p3) :: rest) ∨
     (∃ l ∈ p1 ++ [l1], Reach (importTar es) (cleanEntryName l) e2.key) := by
-  obtain ⟨blocks, hout, hsteps, _⟩ := (sortEntries_structure _ allow hnc).2.2 out missed h
+  obtain ⟨blocks, hout, hsteps, _⟩ := (sortEntries_structure _ allow).2 out missed h
   generalize (importTar es).filter (fun e => decide (e ∉ blocks.flatten)) = rest at hout
   -- split the blocks at l1 and at l2
   have hlist : p1 ++ l1 :: p2 ++ l2 :: p3 = (p1 ++ [l1]) ++ ((p2 ++ [l2]) ++ p3) := by simp
@@ -204,72 +216,83 @@ directory and, if it is a hardlink, by its target (`PlacedIn`: unless that name 
 an entry of the tar, and that entry is among the earlier ones; a root entry, if the tar has one,
 likewise).  By induction the same holds for all ancestors and chains of hardlinks. -/
 theorem leading_group_closed {es : List Entry} {prio : List String} {allow : Bool}
-    (hnc : NoLinkCycle (importTar es)) {out : List Entry} {missed : List String}
+    {out : List Entry} {missed : List String}
     (h : sortEntries es prio allow = .ok out missed) :
     ∃ group rest, out = group ++ landmarkFor prio :: rest ∧
       ∀ pre e post, group = pre ++ e :: post → e.key ≠ [] →
         PlacedIn (importTar es) pre e.key.dropLast ∧
         (e.isLink = true → PlacedIn (importTar es) pre (cleanEntryName e.linkName)) := by
-  obtain ⟨blocks, hout, _, _, _, hclosed, _, _⟩ := (sortEntries_structure prio allow hnc).2.2 out missed h
+  obtain ⟨blocks, hout, _, _, _, hclosed, _⟩ := (sortEntries_structure prio allow).2 out missed h
   refine ⟨blocks.flatten, _, hout, ?_⟩
   intro pre e post hsplit hne
   exact closedR_split _ hclosed pre e post hsplit hne
 
 /-! ### missing paths -/
 
-/-- Without allow-not-found the call fails exactly when some listed path cannot be placed
-(`Missing`: the path, one of its ancestors or a hardlink target it depends on is not in the tar);
-when it succeeds nothing is reported. -/
-theorem missing_path_aborts {es : List Entry} {prio : List String}
-    (hnc : NoLinkCycle (importTar es)) :
-    (sortEntries es prio false = .err ↔ ∃ l ∈ prio, Missing (importTar es) (cleanEntryName l)) ∧
-    (∀ out missed, sortEntries es prio false = .ok out missed → missed = []) := by
-  obtain ⟨hd, he, hok⟩ := sortEntries_structure (es := es) prio false hnc
-  constructor
-  · constructor
-    · intro h; exact (he h).2
-    · rintro ⟨l, hl, hm⟩
-      cases hs : sortEntries es prio false with
-      | err => rfl
-      | diverge => exact absurd hs hd
-      | ok out missed =>
-        obtain ⟨_, _, _, _, _, _, _, hall⟩ := hok out missed hs
-        exact absurd hm (hall rfl l hl)
-  · intro out missed hs
-    obtain ⟨_, _, _, _, _, _, hmissed, hall⟩ := hok out missed hs
+/-- Without allow-not-found: a failing call means some listed path cannot be placed (`Missing`:
+the path, one of its ancestors or a hardlink target it depends on is not in the tar); a
+succeeding call means every listed path could be placed, and nothing is reported; and (given
+termination) the call does fail whenever some listed path cannot be placed. -/
+theorem missing_path_aborts {es : List Entry} {prio : List String} :
+    (sortEntries es prio false = .err → ∃ l ∈ prio, Missing (importTar es) (cleanEntryName l)) ∧
+    (∀ out missed, sortEntries es prio false = .ok out missed →
+      missed = [] ∧ ∀ l ∈ prio, ¬ Missing (importTar es) (cleanEntryName l)) ∧
+    (NoLinkCycle (importTar es) → (∃ l ∈ prio, Missing (importTar es) (cleanEntryName l)) →
+      sortEntries es prio false = .err) := by
+  obtain ⟨he, hok⟩ := sortEntries_structure (es := es) prio false
+  have hok' : ∀ out missed, sortEntries es prio false = .ok out missed →
+      missed = [] ∧ ∀ l ∈ prio, ¬ Missing (importTar es) (cleanEntryName l) := by
+    intro out missed hs
+    obtain ⟨_, _, _, _, _, _, hmissed, _, hall⟩ := hok out missed hs
+    refine ⟨?_, hall rfl⟩
     rw [hmissed]
     unfold missedOf
     rw [List.filter_eq_nil_iff]
-    intro l hl
-    rcases resolve_cases hnc (cleanEntryName l) with ⟨hr, _⟩ | ⟨_, hm⟩
-    · simp [hr]
-    · exact absurd hm (hall rfl l hl)
+    intro l hl hr
+    exact hall rfl l hl (resolve_notFound _ _ (by simpa using hr))
+  refine ⟨fun h => (he h).2, hok', ?_⟩
+  rintro hnc ⟨l, hl, hm⟩
+  cases hs : sortEntries es prio false with
+  | err => rfl
+  | diverge => exact absurd hs (sortEntries_ne_diverge hnc prio false)
+  | ok out missed => exact absurd hm ((hok' out missed hs).2 l hl)
 
-/-- With allow-not-found the call always succeeds and reports back exactly the listed paths that
-cannot be placed, in the order (and spelling, and multiplicity) in which they were listed. -/
-theorem missing_path_reported {es : List Entry} {prio : List String}
-    (hnc : NoLinkCycle (importTar es)) :
-    ∃ out, sortEntries es prio true = .ok out (missedOf (importTar es) prio) ∧
-      (missedOf (importTar es) prio).Sublist prio ∧
-      ∀ l, l ∈ missedOf (importTar es) prio ↔ l ∈ prio ∧ Missing (importTar es) (cleanEntryName l) := by
-  obtain ⟨hd, he, hok⟩ := sortEntries_structure (es := es) prio true hnc
-  cases hs : sortEntries es prio true with
-  | err => have := (he hs).1; cases this
-  | diverge => exact absurd hs hd
-  | ok out missed =>
-    obtain ⟨_, _, _, _, _, _, hmissed, _⟩ := hok out missed hs
-    refine ⟨out, by rw [hmissed], List.filter_sublist, ?_⟩
+/-- With allow-not-found the call never fails; when it returns it reports back exactly the listed
+paths that cannot be placed, in the order (and spelling, and multiplicity) in which they were
+listed; and (given termination) it does return. -/
+theorem missing_path_reported {es : List Entry} {prio : List String} :
+    sortEntries es prio true ≠ .err ∧
+    (∀ out missed, sortEntries es prio true = .ok out missed →
+      missed = missedOf (importTar es) prio ∧ missed.Sublist prio ∧
+      ∀ l, l ∈ missed ↔ l ∈ prio ∧ Missing (importTar es) (cleanEntryName l)) ∧
+    (NoLinkCycle (importTar es) → ∃ out, sortEntries es prio true = .ok out (missedOf (importTar es) prio)) := by
+  obtain ⟨he, hok⟩ := sortEntries_structure (es := es) prio true
+  have hok' : ∀ out missed, sortEntries es prio true = .ok out missed →
+      missed = missedOf (importTar es) prio ∧ missed.Sublist prio ∧
+      ∀ l, l ∈ missed ↔ l ∈ prio ∧ Missing (importTar es) (cleanEntryName l) := by
+    intro out missed hs
+    obtain ⟨_, _, _, _, _, _, hmissed, hnd, _⟩ := hok out missed hs
+    refine ⟨hmissed, by rw [hmissed]; exact List.filter_sublist, ?_⟩
     intro l
+    rw [hmissed]
     unfold missedOf
     simp only [List.mem_filter, beq_iff_eq]
     constructor
     · rintro ⟨hl, hr⟩
       exact ⟨hl, resolve_notFound _ _ hr⟩
     · rintro ⟨hl, hm⟩
-      refine ⟨hl, ?_⟩
-      rcases resolve_cases hnc (cleanEntryName l) with ⟨hr, hnm⟩ | ⟨hr, _⟩
-      · exact absurd hm hnm
-      · exact hr
+      exact ⟨hl, (resolve_notFound_iff (hnd l hl)).mpr hm⟩
+  refine ⟨?_, hok', ?_⟩
+  · intro h
+    have := (he h).1
+    cases this
+  intro hnc
+  cases hs : sortEntries es prio true with
+  | err => have := (he hs).1; cases this
+  | diverge => exact absurd hs (sortEntries_ne_diverge hnc prio true)
+  | ok out missed =>
+    obtain ⟨hm, _⟩ := hok' out missed hs
+    exact ⟨out, by rw [hm]⟩
 
 /-- A listed path (other than the root) that is not in the tar is `Missing`; conversely a path
 that can be placed is in the tar (or is the root). -/
@@ -296,7 +319,7 @@ theorem moveRec_terminates {inp : List Entry} (hnc : NoLinkCycle inp) {st : MSta
 /-- … and so does `sortEntries`, for every prioritized list. -/
 theorem sortEntries_terminates {es : List Entry} (hnc : NoLinkCycle (importTar es))
     (prio : List String) (allow : Bool) : sortEntries es prio allow ≠ .diverge :=
-  (sortEntries_structure prio allow hnc).1
+  sortEntries_ne_diverge hnc prio allow
 
 /-- The hypothesis cannot be dropped: for two hardlinks pointing at each other the recursion never
 bottoms out (the Go code overflows its stack on this input). -/
@@ -332,7 +355,7 @@ sub-writers and compressor behaviour, there is exactly one landmark chunk, it st
 stream, and a data chunk of any other entry has an offset below the landmark's iff the entry is in
 the leading group. -/
 theorem data_before_landmark_iff_prioritized {es : List Entry} {prio : List String} {allow : Bool}
-    (hnc : NoLinkCycle (importTar es)) {out : List Entry} {missed : List String}
+    {out : List Entry} {missed : List String}
     (h : sortEntries es prio allow = .ok out missed)
     (chunkSize : Int) (minChunk : Int) (parts : List (List (ChunkIn Entry) × Nat))
     (hparts : (parts.flatMap (·.1)).map (fun c => (c.tag, c.force)) = chunkTags (effChunkSize chunkSize) out)
@@ -343,8 +366,8 @@ theorem data_before_landmark_iff_prioritized {es : List Entry} {prio : List Stri
       lm.tag = landmarkFor prio ∧ lm.fresh = true ∧
       (∀ o ∈ pre ++ post, o.tag ≠ landmarkFor prio) ∧
       (∀ o ∈ pre ++ post, (o.off < lm.off ↔ o.tag ∈ group) ∧ (lm.off ≤ o.off ↔ o.tag ∈ rest)) := by
-  obtain ⟨hperm, hnodup⟩ := sort_perm hnc h
-  obtain ⟨blocks, hout, _⟩ := (sortEntries_structure prio allow hnc).2.2 out missed h
+  obtain ⟨hperm, hnodup⟩ := sort_perm h
+  obtain ⟨blocks, hout, _⟩ := (sortEntries_structure prio allow).2 out missed h
   generalize hrest : (importTar es).filter (fun e => decide (e ∉ blocks.flatten)) = rest at hout
   -- the chunk sequence splits at the landmark's single chunk
   have hlmchunk : chunkTags (effChunkSize chunkSize) [landmarkFor prio] = [(landmarkFor prio, true)] := by
